@@ -1034,7 +1034,19 @@ fn oq3_have_syntax_errors(oq3_self: &source::SourceFile) -> (r: bool)
     if not U.hse_ok:
       _sfg.guard('have_syntax_errors', None, block=r'pub trait SourceTrait\b', why='SourceTrait::have_syntax_errors (C11 gate of analyze_source) is a trait default method that recurses through its own impl: Verus rejects the shape; the analyser is proved against its specification')
     _sfg.guard('new', None, impl='SourceFile', why='SourceFile::new stores the parsed source and the included list: part of what the assumed precondition `analyzable` rests on')
-    _sfg.guard('parse_source_and_includes', None, why='parses a text and collects its included files: part of what `analyzable` rests on')
+    # parse_source_and_includes: parse the text (lex-checked), then the files it includes.  Under contract: its call of parse_included_files
+    # has to establish that function's precondition
+    U.raw('''impl synast::SourceFile {
+    /// oq3_syntax SourceFile::parse_check_lex (units LEX / PARSER / SYNX).  Assumed-parser: on a tree WITHOUT syntax diagnostics every
+    /// `include` statement names a file (a missing or unterminated path is a syntax error)
+    #[verifier::external_body] pub fn parse_check_lex(text: &str) -> (r: source::ParsedSource)
+        ensures (r.sp_have_parse() && r.sp_n_errors() == 0) ==> source::includes_named(r.sp_tree().sp_statements())
+    { unimplemented!() }
+}
+''', note='SourceFile::parse_check_lex (stub)')
+    _sfg.fn('parse_source_and_includes', ret='r', props=['C11', 'C03'], nodecreases=True,
+            rewrites=[('D34', 'parse_source_and_includes<P: AsRef<Path>>(', 'parse_source_and_includes<P>(')],
+            spec='ensures r.0 is Some,')
     # the rest of source_file.rs and of syntax_to_semantics.rs (entry points parse_source_*, the accessors of ParseResult): generic
     # plumbing around analyze_source / parse_included_files, read by no contract; pinned
     U.sema_pin_rest = [_sfg, z]
